@@ -100,12 +100,239 @@ def _properties(cls: ast.ClassDef) -> dict[str, ast.expr]:
     return out
 
 
+# ---------------------------------------------------------------------------------------------- attrs field definitions
+# Round 5: the constructor of an attrs class is GENERATED from its field definitions, so the converter / validator /
+# default / factory of every field and `__attrs_post_init__` are part of the constructor a copy() calls.  They are read
+# from the source (a converter that is a module-level function is resolved to its RUN-TIME definition and its body is
+# classified), never accepted by name.
+_WRAP_ORDER = ['direct', 'container', 'deepconv']          # what a converter does with the value it is given
+_DEFINE_KEYWORDS = {'auto_attribs', 'hash', 'eq', 'order', 'getstate_setstate', 'frozen', 'weakref_slot', 'slots', 'repr',
+                    'kw_only', 'unsafe_hash', 'init', 'str', 'cache_hash', 'auto_exc', 'match_args', 'collect_by_mro'}
+_FIELD_KEYWORDS_IGNORED = {'repr', 'eq', 'order', 'hash', 'metadata', 'type'}
+
+
+def _runtime_defs(module: ast.Module, name: str) -> list[ast.AST]:
+    """Every module-level definition of `name` that is executed at run time (`if TYPE_CHECKING:` bodies are not)."""
+    out: list[ast.AST] = []
+
+    def scan(body: list[ast.stmt]) -> None:
+        for st in body:
+            if isinstance(st, ast.FunctionDef) and st.name == name:
+                out.append(st)
+            elif isinstance(st, ast.ClassDef) and st.name == name:
+                out.append(st)
+            elif isinstance(st, ast.Assign) and any(isinstance(t, ast.Name) and t.id == name for t in st.targets):
+                out.append(st.value)
+            elif isinstance(st, ast.AnnAssign) and isinstance(st.target, ast.Name) and st.target.id == name and st.value is not None:
+                out.append(st.value)
+            elif isinstance(st, ast.If):
+                t = ast.unparse(st.test)
+                if t in ('TYPE_CHECKING', 'typing.TYPE_CHECKING'):
+                    scan(st.orelse)
+                elif t in ('not TYPE_CHECKING', 'not typing.TYPE_CHECKING'):
+                    scan(st.body)
+                else:
+                    scan(st.body)
+                    scan(st.orelse)
+            elif isinstance(st, ast.Try):
+                scan(st.body)
+                for h in st.handlers:
+                    scan(h.body)
+                scan(st.orelse)
+                scan(st.finalbody)
+    scan(module.body)
+    return out
+
+
+def _fn_result(fn: ast.FunctionDef | ast.Lambda, where: str) -> tuple[str, ast.expr]:
+    """(parameter name, the expression a one-parameter function returns); `if t: return A` + `return B` and
+    `if t: return A else: return B` are read as `A if t else B`."""
+    a = fn.args
+    if len(a.args) != 1 or a.vararg or a.kwarg or a.kwonlyargs or a.posonlyargs or a.defaults:
+        raise TranslateError(f'{where}: a converter must take exactly one positional parameter')
+    x = a.args[0].arg
+    if isinstance(fn, ast.Lambda):
+        return x, fn.body
+    if fn.decorator_list:
+        raise TranslateError(f'{where}: decorated converter function')
+    body = [st for st in fn.body if not (isinstance(st, ast.Expr) and isinstance(st.value, ast.Constant))]
+
+    def result(stmts: list[ast.stmt]) -> ast.expr:
+        if not stmts:
+            raise TranslateError(f'{where}: a path of the converter returns nothing')
+        st = stmts[0]
+        if isinstance(st, ast.Return) and st.value is not None:
+            return st.value
+        if isinstance(st, ast.If):
+            rest = stmts[1:]
+            then = result(st.body + rest) if not _always_returns(st.body) else result(st.body)
+            other = result((st.orelse or []) + rest) if not _always_returns(st.orelse or []) else result(st.orelse)
+            return ast.copy_location(ast.IfExp(test=st.test, body=then, orelse=other), st)
+        raise TranslateError(f'{where}: unrecognised statement `{ast.unparse(st)[:60]}` in a converter')
+    return x, result(body)
+
+
+def _always_returns(stmts: list[ast.stmt]) -> bool:
+    if not stmts:
+        return False
+    last = stmts[-1]
+    if isinstance(last, (ast.Return, ast.Raise)):
+        return True
+    return isinstance(last, ast.If) and _always_returns(last.body) and _always_returns(last.orelse or [])
+
+
+def _converter_wraps(conv: ast.expr, module: Optional[ast.Module], where: str, _depth: int = 0) -> set[str]:
+    """What a converter can do with the value it is given, over all its paths: {'direct'} = hands the very object on,
+    {'container'} = builds a new container of the same elements, {'deepconv'} = builds a new value; several = it depends
+    on the value (the census row is then the join of the paths)."""
+    if _depth > 4:
+        raise TranslateError(f'{where}: converter definition chain too deep')
+    if isinstance(conv, ast.Name):
+        defs = _runtime_defs(module, conv.id) if module is not None else []
+        if not defs:
+            if conv.id in ('set', 'list', 'dict'):
+                return {'container'}           # the builtin: a new container holding the same elements
+            raise TranslateError(f'{where}: unknown attrs converter {conv.id}')
+        if len(defs) != 1:
+            raise TranslateError(f'{where}: converter {conv.id} has {len(defs)} run-time definitions')
+        d = defs[0]
+        if isinstance(d, ast.FunctionDef):
+            return _converter_wraps_fn(d, module, f'{where} ({conv.id})')
+        if isinstance(d, ast.ClassDef):
+            raise TranslateError(f'{where}: converter {conv.id} is a class')
+        return _converter_wraps(d, module, where, _depth + 1)           # `name = <expr>`
+    if isinstance(conv, ast.Lambda):
+        return _converter_wraps_fn(conv, module, where)
+    raise TranslateError(f'{where}: unknown attrs converter `{ast.unparse(conv)[:60]}`')
+
+
+def _converter_wraps_fn(fn: ast.FunctionDef | ast.Lambda, module: Optional[ast.Module], where: str) -> set[str]:
+    x, res = _fn_result(fn, where)
+
+    def mentions(e: ast.AST) -> bool:
+        return any(isinstance(n, ast.Name) and n.id == x for n in ast.walk(e))
+
+    def shadowed(name: str) -> bool:
+        return module is not None and bool(_runtime_defs(module, name))
+
+    def go(e: ast.expr) -> set[str]:
+        if isinstance(e, ast.Name) and e.id == x:
+            return {'direct'}
+        if not mentions(e):
+            if isinstance(e, (ast.Constant, ast.Call, ast.List, ast.Set, ast.Dict, ast.Tuple)):
+                return set()                   # a constant / an object built here: nothing of the argument is handed on
+            raise TranslateError(f'{where}: unrecognised converter result `{ast.unparse(e)[:60]}`')
+        if isinstance(e, ast.IfExp):
+            return go(e.body) | go(e.orelse)
+        if isinstance(e, ast.BoolOp) and all(not isinstance(v, ast.NamedExpr) for v in e.values):
+            out: set[str] = set()
+            for v in e.values:                 # `x or set()`, `x and set(x)`: any operand may be the result
+                out |= go(v)
+            return out
+        if isinstance(e, ast.Call) and isinstance(e.func, ast.Name) and e.func.id in ('set', 'list', 'dict') \
+                and not shadowed(e.func.id) and len(e.args) == 1 and not e.keywords and go(e.args[0]) <= {'direct', 'container'}:
+            return {'container'}
+        if isinstance(e, ast.Call) and isinstance(e.func, ast.Attribute) and e.func.attr == 'copy' and not e.args \
+                and not e.keywords and isinstance(e.func.value, ast.Name) and e.func.value.id == x:
+            return {'container'}               # set.copy() / list.copy() / dict.copy(): shallow
+        if isinstance(e, (ast.ListComp, ast.SetComp)) and len(e.generators) == 1 and not e.generators[0].ifs \
+                and isinstance(e.generators[0].iter, ast.Name) and e.generators[0].iter.id == x \
+                and isinstance(e.generators[0].target, ast.Name) and isinstance(e.elt, ast.Name) \
+                and e.elt.id == e.generators[0].target.id:
+            return {'container'}
+        if isinstance(e, ast.Starred):
+            raise TranslateError(f'{where}: starred converter result')
+        if isinstance(e, (ast.List, ast.Set)) and len(e.elts) == 1 and isinstance(e.elts[0], ast.Starred) \
+                and isinstance(e.elts[0].value, ast.Name) and e.elts[0].value.id == x:
+            return {'container'}               # [*x] / {*x}
+        raise TranslateError(f'{where}: unrecognised converter result `{ast.unparse(e)[:60]}`')
+    out = go(res)
+    return out or {'container'}
+
+
+def _validator_is_pure(v: ast.expr, module: Optional[ast.Module], where: str, _depth: int = 0) -> None:
+    """A validator may only look and raise: `attrs.validators.*` combinators over classes and over module-level functions
+    whose body is nothing but `if ...: raise ...`."""
+    if _depth > 4:
+        raise TranslateError(f'{where}: validator nesting too deep')
+    if isinstance(v, ast.Call):
+        f = ast.unparse(v.func)
+        if not f.startswith('attrs.validators.') or v.keywords and any(k.arg is None for k in v.keywords):
+            raise TranslateError(f'{where}: unknown attrs validator `{f}`')
+        for a in list(v.args) + [k.value for k in v.keywords]:
+            _validator_is_pure(a, module, where, _depth + 1)
+        return
+    if isinstance(v, (ast.List, ast.Tuple)):
+        for a in v.elts:
+            _validator_is_pure(a, module, where, _depth + 1)
+        return
+    if isinstance(v, ast.Attribute) and ast.unparse(v).startswith('attrs.validators.'):
+        return
+    if isinstance(v, ast.Constant):
+        return
+    if isinstance(v, ast.Name):
+        defs = _runtime_defs(module, v.id) if module is not None else []
+        if len(defs) == 1 and isinstance(defs[0], ast.ClassDef):
+            return                              # instance_of(Vec)
+        if len(defs) == 1 and isinstance(defs[0], ast.FunctionDef):
+            def only_raises(stmts: list[ast.stmt]) -> bool:
+                for st in stmts:
+                    if isinstance(st, ast.Expr) and isinstance(st.value, ast.Constant) or isinstance(st, (ast.Raise, ast.Pass)):
+                        continue
+                    if isinstance(st, ast.If) and only_raises(st.body) and only_raises(st.orelse) \
+                            and not any(isinstance(n, (ast.NamedExpr, ast.Await, ast.Yield)) for n in ast.walk(st.test)):
+                        continue
+                    return False
+                return True
+            if only_raises(defs[0].body):
+                return
+            raise TranslateError(f'{where}: validator {v.id} does more than look and raise')
+        if not defs and v.id in ('int', 'str', 'float', 'bool', 'list', 'set', 'dict', 'tuple', 'Vec', 'Angle', 'Matrix'):
+            return
+        if not defs and module is not None and v.id[:1].isupper() and any(
+                isinstance(st, ast.ImportFrom) and any((a.asname or a.name) == v.id for a in st.names) for st in ast.walk(module)):
+            return                              # an imported class (instance_of((Vec, FrozenVec)))
+        raise TranslateError(f'{where}: unknown validator name {v.id}')
+    raise TranslateError(f'{where}: unknown attrs validator `{ast.unparse(v)[:60]}`')
+
+
+def _is_constant(x: ast.expr) -> bool:
+    return isinstance(x, ast.Constant) or (isinstance(x, ast.UnaryOp) and isinstance(x.operand, ast.Constant)) \
+        or (isinstance(x, ast.Tuple) and all(_is_constant(y) for y in x.elts))
+
+
+def _default_is_unshared(e: ast.expr, imm_kind: bool, converted: bool, where: str) -> None:
+    """The default VALUE of an attrs field is one object shared by every instance that does not give the field: it must
+    be immutable (a constant, a tuple of constants, an enum member / an instance of a frozen class for a field of an
+    immutable kind), or be rebuilt by a copying converter."""
+    def const(x: ast.expr) -> bool:
+        return isinstance(x, ast.Constant) or (isinstance(x, ast.UnaryOp) and isinstance(x.operand, ast.Constant)) \
+            or (isinstance(x, ast.Tuple) and all(const(y) for y in x.elts))
+    if const(e):
+        return
+    if imm_kind and (isinstance(e, ast.Attribute) or (isinstance(e, ast.Call) and isinstance(e.func, ast.Name))):
+        return
+    if converted and isinstance(e, (ast.List, ast.Set, ast.Dict)) and not (e.elts if not isinstance(e, ast.Dict) else e.keys):
+        return
+    raise TranslateError(f'{where}: the default `{ast.unparse(e)[:60]}` is one mutable object shared by all instances')
+
+
+def _factory_builds_new(e: ast.expr, where: str) -> None:
+    if isinstance(e, ast.Name):
+        return                                  # a class / builtin called for every instance
+    if isinstance(e, ast.Lambda) and not e.args.args and isinstance(e.body, (ast.Call, ast.List, ast.Set, ast.Dict, ast.ListComp)):
+        return
+    raise TranslateError(f'{where}: unrecognised attrs factory `{ast.unparse(e)[:60]}`')
+
+
 class ClassInfo:
     """fields (ordered), kinds, and for each constructor parameter: the field it feeds and the wrap applied."""
 
-    def __init__(self, cls: ast.ClassDef, want_feeds: bool = True) -> None:
+    def __init__(self, cls: ast.ClassDef, want_feeds: bool = True, module: Optional[ast.Module] = None) -> None:
         self.name = cls.name
         self.node = cls
+        self.wrap_alt: dict[str, str] = {}       # attrs field -> the BETTER wrap its converter applies on some paths only
+        self.noninit: dict[str, ast.expr] = {}   # attrs init=False fields with a constant default (bookkeeping, not data)
         ann = _class_annotations(cls)
         self.params: list[str] = []                       # constructor parameters in order (without self)
         self.kwonly: list[str] = []
@@ -119,25 +346,66 @@ class ClassInfo:
         self.props: dict[str, ast.expr] = _properties(cls)                    # read-only view: property -> returned expression
         if _is_attrs(cls):
             self.fields = []
+            for d in cls.decorator_list:
+                if isinstance(d, ast.Call):
+                    for kw in d.keywords:
+                        if kw.arg not in _DEFINE_KEYWORDS:
+                            raise TranslateError(f'{cls.name}: attrs.define({kw.arg}=...) not supported')
+                        if kw.arg in ('kw_only', 'init') and not (isinstance(kw.value, ast.Constant) and kw.value.value is (kw.arg == 'init')):
+                            raise TranslateError(f'{cls.name}: attrs.define({kw.arg}={ast.unparse(kw.value)}) not supported')
             for n in cls.body:
                 if isinstance(n, ast.AnnAssign) and isinstance(n.target, ast.Name):
                     f = n.target.id
                     self.fields.append(f)
                     self.ann[f] = ast.unparse(n.annotation)
+                    where = f'{cls.name}.{f}'
+                    try:
+                        imm_kind = kind_of(cls.name, f, self.ann[f]) in ('KImm', 'KId')
+                    except TranslateError:
+                        imm_kind = False
                     wrap = 'direct'
-                    if n.value is not None and isinstance(n.value, ast.Call) and ast.unparse(n.value.func) == 'attrs.field':
-                        for kw in n.value.keywords:
-                            if kw.arg == 'converter':
-                                if ast.unparse(kw.value) in ('_conv_visgroups', 'set', 'list'):
-                                    wrap = 'container'
+                    if n.value is not None and isinstance(n.value, ast.Call) and ast.unparse(n.value.func) in ('attrs.field', 'attrs.ib', 'attr.ib'):
+                        if n.value.args:
+                            raise TranslateError(f'{where}: positional arguments of attrs.field')
+                        kws = {kw.arg: kw.value for kw in n.value.keywords}
+                        if 'init' in kws and isinstance(kws['init'], ast.Constant) and kws['init'].value is False:
+                            # not a constructor parameter: attrs stores the default, __attrs_post_init__ may store constants.
+                            # With a constant default it is the same for every constructed object — bookkeeping, not data
+                            # that a copy has to carry over; it is left out of the data fields (copy() cannot pass it).
+                            extra = set(kws) - {'init', 'default'} - _FIELD_KEYWORDS_IGNORED
+                            if extra or 'default' not in kws or not _is_constant(kws['default']) or not imm_kind:
+                                raise TranslateError(f'{where}: an init=False field must be of an immutable kind with a constant default '
+                                                     f'and nothing else ({sorted(extra)})')
+                            self.noninit[f] = kws['default']
+                            self.fields.pop()
+                            del self.ann[f]
+                            continue
+                        for k, v in kws.items():
+                            if k == 'converter':
+                                wraps = _converter_wraps(v, module, where)
+                                wrap = min(wraps, key=_WRAP_ORDER.index)         # the weakest path decides the row
+                                if len(wraps) > 1:
+                                    self.wrap_alt[f] = max(wraps, key=_WRAP_ORDER.index)
+                            elif k == 'validator':
+                                _validator_is_pure(v, module, where)
+                            elif k == 'default':
+                                if isinstance(v, ast.Call) and ast.unparse(v.func) == 'attrs.Factory' and len(v.args) == 1 and not v.keywords:
+                                    _factory_builds_new(v.args[0], where)
                                 else:
-                                    raise TranslateError(f'{cls.name}.{f}: unknown attrs converter {ast.unparse(kw.value)}')
-                            elif kw.arg == 'init':
-                                raise TranslateError(f'{cls.name}.{f}: attrs init= not supported')
+                                    _default_is_unshared(v, imm_kind, 'converter' in kws, where)
+                            elif k == 'factory':
+                                _factory_builds_new(v, where)
+                            elif k in _FIELD_KEYWORDS_IGNORED:
+                                pass
+                            else:                      # init=, kw_only=, alias=, on_setattr= change the constructor itself
+                                raise TranslateError(f'{where}: attrs.field({k}=...) not supported')
+                    elif n.value is not None:
+                        _default_is_unshared(n.value, imm_kind, False, where)
                     if f == 'id' and cls.name in ID_CLASSES:
                         wrap = 'newid'
                     self.params.append(f)
                     self.feeds[f] = (f, wrap)
+            self._attrs_post_init(cls)
             return
         init = _method(cls, '__init__')
         a = init.args
@@ -224,6 +492,36 @@ class ClassInfo:
                     if ff == f and pann.get(p):
                         a0 = pann[p]
             self.ann[f] = a0
+
+    def _attrs_post_init(self, cls: ast.ClassDef) -> None:
+        """`__attrs_post_init__` runs at the end of the generated constructor: every statement must be a store
+        `self.F = <something built from self.F>` that is recognised (ID allocation, a copying re-wrap of the same field)."""
+        for n in cls.body:
+            if isinstance(n, ast.FunctionDef) and n.name in ('__attrs_pre_init__', '__init__', '__new__', '__setattr__'):
+                raise TranslateError(f'{cls.name}.{n.name}: not supported on an attrs class')
+        posts = [n for n in cls.body if isinstance(n, ast.FunctionDef) and n.name == '__attrs_post_init__']
+        if len(posts) > 1:
+            raise TranslateError(f'{cls.name}: several __attrs_post_init__')
+        for st in (posts[0].body if posts else []):
+            if isinstance(st, ast.Expr) and isinstance(st.value, ast.Constant) or isinstance(st, ast.Pass):
+                continue
+            f = _self_attr(st.targets[0]) if isinstance(st, ast.Assign) and len(st.targets) == 1 else None
+            v = st.value if isinstance(st, ast.Assign) else None
+            if f is not None and f in self.noninit and v is not None and _is_constant(v):
+                continue                      # a constant into a bookkeeping field: the same for every constructed object
+            if f is None or f not in self.feeds or not isinstance(v, ast.Call) or len(v.args) != 1 or v.keywords \
+                    or _self_attr(v.args[0]) != f:
+                raise TranslateError(f'{cls.name}.__attrs_post_init__: unrecognised statement `{ast.unparse(st)[:60]}`')
+            fn = ast.unparse(v.func)
+            if fn.endswith('.get_id') and _self_attr(v.func.value.value if isinstance(v.func, ast.Attribute)      # type: ignore[attr-defined]
+                                                      and isinstance(v.func.value, ast.Attribute) else v) in ('map', 'vmf'):
+                self.feeds[f] = (f, 'newid')
+            elif fn in ('list', 'set', 'dict'):
+                if self.feeds[f][1] == 'direct':
+                    self.feeds[f] = (f, 'container')
+                self.wrap_alt.pop(f, None)
+            else:
+                raise TranslateError(f'{cls.name}.__attrs_post_init__: unrecognised statement `{ast.unparse(st)[:60]}`')
 
     def _feed(self, v: ast.expr, params: set[str], local: dict[str, ast.expr],
               spec: Optional['Spec'] = None) -> Optional[tuple[str, str]]:
@@ -1168,6 +1466,16 @@ class CopyAnalysis:
             if ha in rank and hb in rank:
                 how = ha if rank[ha] <= rank[hb] else hb
                 cen.cond_parts[field] = (ha, hb)
+        elif field in info.wrap_alt and wrap == info.feeds.get(field, (field, ''))[1]:
+            # the field's CONVERTER copies on some of its paths only (`x if isinstance(x, set) else set(x)`): the row is the
+            # weaker path (that is `wrap`); the pair is recorded like a conditional of copy() itself (cond_rows)
+            rank = {'HShare': 0, 'HShallow': 1, 'HDeep': 2}
+            hb = self.final_how(info, field, self.classify(e, src, env, params, label), info.wrap_alt[field], label)
+            self.join_parts = None
+            if how in rank and hb in rank and how != hb:
+                how, hb = (how, hb) if rank[how] <= rank[hb] else (hb, how)
+                cen.cond_parts[field] = (how, hb)
+                cen.conditional.add(field)
         return how
 
     def final_how(self, info: ClassInfo, field: str, arg: str, wrap: str, label: str) -> str:
@@ -1494,6 +1802,80 @@ class CopyAnalysis:
         self.censuses.append(cen)
 
 
+    def state_census(self, cname: str, label: str, cache_ann: tuple[str, ...] = ('Optional[Pattern[str]]',)) -> Census:
+        """A pickle round trip of a class whose `__getstate__` returns ONE value built from self and whose `__setstate__`
+        rebuilds the fields from it (EntityFixup: `list(self._fixup.values())` / a dict comprehension over the state).
+        pickle serialises the state, so every object below it comes back NEW: a field that `__setstate__` builds from ALL
+        elements of the state, when the state holds the whole of that field, has the row HDeep from that field; a filtered
+        or sliced comprehension, a constant, or a state that holds only part of the field gives HMissing
+        (`copy_covers_fields:<label>` names it).  A cache field (annotation in `cache_ann`) reset to a constant follows
+        the convention of the constructor path (`EntityFixup_copy_values`): rebuilt lazily, row HShare.
+        Anything else fails closed."""
+        info = self.classes[cname]
+        cls = info.node
+        gs = normalise_fn(_method(cls, '__getstate__'), self.tree, cls)
+        ss = normalise_fn(_method(cls, '__setstate__'), self.tree, cls)
+        if len(gs.args.args) != 1 or len(ss.args.args) != 2 or ss.args.vararg or ss.args.kwarg or gs.args.vararg or gs.args.kwarg:
+            raise TranslateError(f'{label}: unexpected signature of __getstate__/__setstate__')
+        defined = {n.name for n in cls.body if isinstance(n, (ast.FunctionDef, ast.AsyncFunctionDef))}
+        other = {'__reduce__', '__reduce_ex__', '__getnewargs__', '__getnewargs_ex__', '__new__', '__setattr__', '__getattribute__'} & defined
+        if other:
+            raise TranslateError(f'{label}: {cname} also defines {sorted(other)}')
+        body = [st for st in gs.body if not (isinstance(st, ast.Expr) and isinstance(st.value, ast.Constant))]
+        if len(body) != 1 or not isinstance(body[0], ast.Return) or body[0].value is None:
+            raise TranslateError(f'{label}: __getstate__ is not a single `return <expr>`')
+        state_expr = body[0].value
+        saved, self.src_class = self.src_class, cname
+        self.join_parts, self.joined = None, False
+        held = self.classify(state_expr, 'self', {}, set(), label)
+        if self.join_parts is not None:
+            raise TranslateError(f'{label}: conditional state `{ast.unparse(state_expr)[:60]}`')
+        self.src_class = saved
+        reads = src_reads(state_expr, 'self', {}, info)
+        whole = held in ('share', 'share-elems', 'shallow', 'copycall', 'deep', 'deep-ctor', 'deep-flat') and len(reads) == 1
+        sname = ss.args.args[1].arg
+        cen = Census(label, info, self)
+        cen.builder = 'protocol'
+        for st in ss.body:
+            if isinstance(st, ast.Expr) and isinstance(st.value, ast.Constant) or isinstance(st, ast.Pass):
+                continue
+            f = _self_attr(st.targets[0]) if isinstance(st, ast.Assign) and len(st.targets) == 1 else \
+                (_self_attr(st.target) if isinstance(st, ast.AnnAssign) and st.value is not None else None)
+            v = st.value if isinstance(st, (ast.Assign, ast.AnnAssign)) else None
+            if f is None or v is None or f not in info.fields or f in cen.how:
+                raise TranslateError(f'{label}: unrecognised statement `{ast.unparse(st)[:60]}` in __setstate__')
+            if isinstance(v, ast.Constant) or ast.unparse(v) in ('{}', '[]', 'set()', 'dict()', 'list()'):
+                if info.ann.get(f) in cache_ann and isinstance(v, ast.Constant) and v.value is None:
+                    cen.set(f, 'HShare', f'reset to None by __setstate__ (cache, rebuilt lazily)', [f])
+                else:
+                    cen.set(f, 'HMissing', f'constant {ast.unparse(v)} in __setstate__', [], [])
+                continue
+            # what of the state reaches the field: all of its elements, or part
+            all_elems: Optional[bool] = None
+            if isinstance(v, ast.Name) and v.id == sname:
+                all_elems = True
+            elif isinstance(v, ast.Call) and isinstance(v.func, ast.Name) and v.func.id in ('list', 'dict', 'set') \
+                    and len(v.args) == 1 and not v.keywords and isinstance(v.args[0], ast.Name) and v.args[0].id == sname:
+                all_elems = True
+            elif isinstance(v, (ast.ListComp, ast.SetComp, ast.DictComp)) and len(v.generators) == 1:
+                g = v.generators[0]
+                elt = v.value if isinstance(v, ast.DictComp) else v.elt
+                if isinstance(g.iter, ast.Name) and g.iter.id == sname and isinstance(g.target, ast.Name) \
+                        and isinstance(elt, ast.Name) and elt.id == g.target.id and not g.is_async:
+                    all_elems = not g.ifs            # a filter drops elements
+                    if isinstance(v, ast.DictComp) and not any(isinstance(n, ast.Name) and n.id == g.target.id for n in ast.walk(v.key)):
+                        all_elems = False           # a key that does not depend on the element: entries overwrite each other
+            if all_elems is None:
+                raise TranslateError(f'{label}: unrecognised value `{ast.unparse(v)[:60]}` for {f} in __setstate__')
+            if all_elems and whole:
+                cen.set(f, 'HDeep', f'pickle of {ast.unparse(state_expr)} -> {ast.unparse(v)[:70]}', reads, [(reads[0], 'ident')])
+            else:
+                cen.set(f, 'HMissing', f'only part of the field survives: state {ast.unparse(state_expr)[:50]} ({held}) -> {ast.unparse(v)[:50]}',
+                        reads, [(r, 'derived') for r in reads])
+        self.censuses.append(cen)
+        return cen
+
+
     def protocol_census(self, cname: str, label: str, which: str) -> Census:
         """`copy.deepcopy(x)` / a pickle round trip of a class that customises NOTHING of the copy protocol: CPython's
         generic protocol (copyreg.__reduce_ex__: a new object of the same class, every slot set to a deep copy /
@@ -1688,6 +2070,8 @@ def pickle_state(cls: ast.ClassDef, info: 'ClassInfo', classes: dict[str, 'Class
         raise TranslateError(f'{lab}: unexpected signature of __getstate__/__setstate__')
     tuples: dict[str, list[ast.expr]] = {}
     returns: list[list[ast.expr]] = []
+    ret_branch: list[str] = []           # round 5: where each return sits: top | body | orelse (of the one `if`)
+    the_if: list[ast.If] = []
 
     def elems(e: ast.expr) -> list[ast.expr]:
         if isinstance(e, ast.Name) and e.id in tuples:
@@ -1704,7 +2088,7 @@ def pickle_state(cls: ast.ClassDef, info: 'ClassInfo', classes: dict[str, 'Class
                 out.append(x)
         return out
 
-    def scan_get(body: list[ast.stmt], depth: int) -> None:
+    def scan_get(body: list[ast.stmt], depth: int, branch: str = 'top') -> None:
         for st in body:
             if isinstance(st, ast.Expr) and isinstance(st.value, ast.Constant):
                 continue
@@ -1716,10 +2100,12 @@ def pickle_state(cls: ast.ClassDef, info: 'ClassInfo', classes: dict[str, 'Class
                 raise TranslateError(f'{lab}.__getstate__: unrecognised assignment `{ast.unparse(st)[:50]}`')
             if isinstance(st, ast.Return) and st.value is not None:
                 returns.append(elems(st.value))
+                ret_branch.append(branch)
                 continue
-            if isinstance(st, ast.If) and depth == 0:
-                scan_get(st.body, 1)
-                scan_get(st.orelse, 1)
+            if isinstance(st, ast.If) and depth == 0 and not the_if:
+                the_if.append(st)
+                scan_get(st.body, 1, 'body')
+                scan_get(st.orelse, 1, 'orelse')
                 continue
             raise TranslateError(f'{lab}.__getstate__: unsupported statement `{ast.unparse(st)[:50]}`')
     scan_get(gs.body, 0)
@@ -1734,6 +2120,19 @@ def pickle_state(cls: ast.ClassDef, info: 'ClassInfo', classes: dict[str, 'Class
         return names.pop()
     puts = sorted(([field_of(e) for e in r] for r in returns), key=len)
     put_long, put_short = puts[-1], puts[0]
+    # round 5: WHEN the long form is taken (the test of the `if`, oriented by the branch the long return sits in)
+    long_test: Optional[ast.expr] = None
+    if len(returns) == 2:
+        if not the_if or len(returns[0]) == len(returns[1]):
+            raise TranslateError(f'{lab}.__getstate__: two returns but no `if` choosing between a long and a short state')
+        k_long = 0 if len(returns[0]) > len(returns[1]) else 1
+        bl, bs = ret_branch[k_long], ret_branch[1 - k_long]
+        if bl == 'body' and bs in ('orelse', 'top'):
+            long_test = the_if[0].test
+        elif bs == 'body' and bl in ('orelse', 'top'):
+            long_test = ast.UnaryOp(op=ast.Not(), operand=the_if[0].test)
+        else:
+            raise TranslateError(f'{lab}.__getstate__: cannot tell which branch returns the long state ({bl}/{bs})')
 
     state = ss.args.args[1].arg
     get_short: list[str] = []
@@ -1776,8 +2175,96 @@ def pickle_state(cls: ast.ClassDef, info: 'ClassInfo', classes: dict[str, 'Class
             defaults[f] = ast.unparse(st.value)
         if sorted(defaults) != sorted(get_tail):
             raise TranslateError(f'{lab}.__setstate__: the short form restores {sorted(defaults)}, the long form {sorted(get_tail)}')
+    short_rows = _short_form_rows(lab, long_test, get_tail, defaults, info) if long_test is not None and rest is not None else []
+    if (long_test is None) != (rest is None):
+        raise TranslateError(f'{lab}: __getstate__ and __setstate__ disagree on whether there is a short state')
     return {'put': put_long, 'put_short': put_short if len(returns) == 2 else put_long, 'get': get_short + get_tail,
-            'get_short': get_short if rest is not None else get_short + get_tail, 'defaults': defaults}
+            'get_short': get_short if rest is not None else get_short + get_tail, 'defaults': defaults,
+            'tail': get_tail, 'short_rows': short_rows,
+            'long_test': ast.unparse(long_test) if long_test is not None else None}
+
+
+def _nnf_disjuncts(t: ast.expr, neg: bool = False) -> list[tuple[ast.expr, bool]]:
+    """The test as a disjunction of (atom, negated?) — `not` pushed inwards (De Morgan); a conjunction that remains is not
+    a disjunction of per-field tests and fails closed."""
+    if isinstance(t, ast.UnaryOp) and isinstance(t.op, ast.Not):
+        return _nnf_disjuncts(t.operand, not neg)
+    if isinstance(t, ast.BoolOp):
+        is_or = isinstance(t.op, ast.Or) != neg          # not (a and b) = not a or not b
+        if not is_or:
+            raise TranslateError(f'the long-form test contains a conjunction `{ast.unparse(t)[:60]}`')
+        out: list[tuple[ast.expr, bool]] = []
+        for v in t.values:
+            out += _nnf_disjuncts(v, neg)
+        return out
+    return [(t, neg)]
+
+
+def _short_form_rows(lab: str, long_test: ast.expr, tail: list[str], defaults: dict[str, str], info: 'ClassInfo') -> list[list]:
+    """Per optional field of the state: (field, type, its own disjuncts of the long-form test, the constant restored) —
+    Gen `<class>_short_rows`; meaning and theorem in SM/StorePickleShort{,Proofs}.v."""
+    ty_of = {'Optional[str]': 'TyOptStr', 'str': 'TyStr', 'float': 'TyFloat', 'int': 'TyInt'}
+    tests: dict[str, list[str]] = {f: [] for f in tail}
+
+    def int_const(e: ast.expr) -> Optional[int]:
+        if isinstance(e, ast.Constant) and type(e.value) is int:
+            return e.value
+        if isinstance(e, ast.UnaryOp) and isinstance(e.op, ast.USub) and isinstance(e.operand, ast.Constant) and type(e.operand.value) is int:
+            return -e.operand.value
+        return None
+
+    for atom, neg in _nnf_disjuncts(long_test):
+        fields = {_self_attr(n) for n in ast.walk(atom) if _self_attr(n) is not None}
+        if len(fields) != 1:
+            raise TranslateError(f'{lab}.__getstate__: disjunct `{ast.unparse(atom)[:60]}` of the long-form test reads {sorted(fields)}')
+        f = fields.pop()
+        if f not in tests:
+            continue              # a field of the fixed part steering the form: more long states, nothing is lost
+        ty = ty_of.get(info.ann.get(f) or '')
+        what: Optional[str] = None
+        if _self_attr(atom) == f and not neg:
+            what = 'TTruthy'
+        elif isinstance(atom, ast.Compare) and len(atom.ops) == 1:
+            op, left, right = atom.ops[0], atom.left, atom.comparators[0]
+            if neg:               # not (a == b)  =  a != b ;  not (a is None)  =  a is not None
+                op = {ast.Eq: ast.NotEq(), ast.Is: ast.IsNot()}.get(type(op))      # type: ignore[assignment]
+            if isinstance(op, ast.IsNot) and _self_attr(left) == f and isinstance(right, ast.Constant) and right.value is None:
+                what = 'TNotNone'
+            elif isinstance(op, ast.NotEq) and _self_attr(left) == f:
+                c = int_const(right)
+                if c is not None and ty == 'TyInt':
+                    what = f'(TNeqInt ({c})%Z)'
+                elif ty == 'TyFloat' and (c == 0 or (isinstance(right, ast.Constant) and type(right.value) is float and right.value == 0.0)):
+                    what = 'TNeqZeroNum'
+            elif isinstance(op, ast.NotEq) and isinstance(left, ast.JoinedStr) and len(left.values) == 1 \
+                    and isinstance(left.values[0], ast.FormattedValue) and _self_attr(left.values[0].value) == f \
+                    and left.values[0].conversion == -1 and left.values[0].format_spec is not None \
+                    and ast.unparse(left.values[0].format_spec) == "f'g'" \
+                    and isinstance(right, ast.Constant) and right.value == '0':
+                what = 'TFmtNotZero'
+        if what is None:
+            raise TranslateError(f'{lab}.__getstate__: unrecognised disjunct `{"not " if neg else ""}{ast.unparse(atom)[:60]}` of the long-form test')
+        tests[f].append(what)
+    rows = []
+    for f in tail:
+        ty = ty_of.get(info.ann.get(f) or '')
+        if ty is None:
+            raise TranslateError(f'{lab}: optional state field {f} has the unmodelled type `{info.ann.get(f)}`')
+        d = defaults[f].replace(' ', '')
+        if d == 'None':
+            dv = 'DNone'
+        elif d in ("''", '""'):
+            dv = 'DEmptyStr'
+        elif ty == 'TyFloat' and d in ('0.0', '0', '0.'):
+            dv = 'DFloatZero'
+        elif ty == 'TyFloat' and d in ('-0.0', '-0.'):
+            dv = 'DFloatNegZero'
+        elif re.fullmatch(r'-?\d+', d):
+            dv = f'(DIntC ({int(d)})%Z)'
+        else:
+            raise TranslateError(f'{lab}.__setstate__: unmodelled default `{defaults[f]}` of {f}')
+        rows.append([f, ty, tests[f], dv])
+    return rows
 
 
 # ---------------------------------------------------------------------------------------------- main
@@ -1788,8 +2275,8 @@ VMF_CLASSES = ['Camera', 'Cordon', 'VisGroup', 'Solid', 'UVAxis', 'DispVertex', 
 def translate() -> tuple[str, dict]:
     vtree = ast.parse(src_text('vmf.py'))
     ktree = ast.parse(src_text('keyvalues.py'))
-    classes = {n: ClassInfo(_find_class(vtree, n)) for n in VMF_CLASSES}
-    kv_info = ClassInfo(_find_class(ktree, 'Keyvalues'), want_feeds=False)
+    classes = {n: ClassInfo(_find_class(vtree, n), module=vtree) for n in VMF_CLASSES}
+    kv_info = ClassInfo(_find_class(ktree, 'Keyvalues'), want_feeds=False, module=ktree)
     kv_info.ann.update({'_folded_name': 'Optional[str]', '_real_name': 'Optional[str]', 'line_num': 'Optional[int]'})
     an = CopyAnalysis(vtree, classes)
     an.analyse_copy_values()
@@ -1797,6 +2284,7 @@ def translate() -> tuple[str, dict]:
         an.method_census(c)
     an.method_census('EntityFixup', '__copy__', 'EntityFixup_copy')
     an.method_census('EntityFixup', '__deepcopy__', 'EntityFixup_deepcopy')
+    an.state_census('EntityFixup', 'EntityFixup_pickle')
     kan = CopyAnalysis(ktree, {'Keyvalues': kv_info})
     kan.method_census('Keyvalues')
     kan.protocol_census('Keyvalues', 'Keyvalues_deepcopy', 'deepcopy')
@@ -1807,7 +2295,7 @@ def translate() -> tuple[str, dict]:
     if len(set(labels)) != len(labels):
         raise TranslateError(f'duplicate census labels {labels}')
     lines = ['(* GENERATED by translate/c09_copy.py from /repo/src/srctools/vmf.py, keyvalues.py. Do not edit. *)',
-             'From Coq Require Import List String Bool.', 'From SV Require Import SM.StoreCopy SM.StoreCopyFlow SM.KvAdd.',
+             'From Coq Require Import List String Bool ZArith.', 'From SV Require Import SM.StoreCopy SM.StoreCopyFlow SM.KvAdd SM.StorePickleShort.',
              'Import ListNotations.', 'Open Scope string_scope.', '']
     side: dict = {'classes': labels, 'census': {}, 'kv': kv, 'digests': {}, 'sources': {}, 'builder': {}}
     for c in censuses:
@@ -1847,7 +2335,28 @@ def translate() -> tuple[str, dict]:
     lines += [f'Definition output_state_put : list string := {sl(ps["put"])}.',
               f'Definition output_state_get : list string := {sl(ps["get"])}.',
               f'Definition output_state_put_short : list string := {sl(ps["put_short"])}.',
-              f'Definition output_state_get_short : list string := {sl(ps["get_short"])}.']
+              f'Definition output_state_get_short : list string := {sl(ps["get_short"])}.',
+              f'Definition output_state_tail : list string := {sl(ps["tail"])}.',
+              'Definition output_short_rows : list srow := [',
+              ';\n'.join('  ("%s", %s, [%s], %s)' % (f, ty, '; '.join(ts), dv) for f, ty, ts, dv in ps['short_rows']),
+              '].']
+    # round 5: `__copy__` / `__deepcopy__` hooks on map-object classes (copy.copy(x) is an alternative entry point): a hook must
+    # be a plain delegation `return self.copy()`; EntityFixup's hooks are census labels of their own
+    hooks: list[tuple[str, str, bool]] = []
+    for cname in VMF_CLASSES:
+        if cname == 'EntityFixup':
+            continue
+        for n in classes[cname].node.body:
+            if isinstance(n, ast.FunctionDef) and n.name in ('__copy__', '__deepcopy__'):
+                body = [st for st in n.body if not (isinstance(st, ast.Expr) and isinstance(st.value, ast.Constant))]
+                ok = len(body) == 1 and isinstance(body[0], ast.Return) and body[0].value is not None \
+                    and ast.unparse(body[0].value) == 'self.copy()' and not n.decorator_list \
+                    and any(isinstance(m, ast.FunctionDef) and m.name == 'copy' for m in classes[cname].node.body)
+                hooks.append((cname, n.name, ok))
+    side['copy_hooks'] = [list(h) for h in hooks]
+    lines.append('Definition copy_hooks : list (string * bool) := [')
+    lines.append(';\n'.join(f'  ("{c}.{m}", {"true" if ok else "false"})' for c, m, ok in hooks))
+    lines.append('].')
     lines.append('Definition cond_rows : list (string * string * how * how) := [')
     lines.append(';\n'.join(f'  ("{c.label}", "{f}", {a}, {b})' for c in censuses for f, (a, b) in sorted(c.cond_parts.items())))
     lines.append('].')
